@@ -269,13 +269,15 @@ def standin(tier, seed):
             if hre is not None and re.fullmatch(hre, host) is None:
                 continue
             for pre, tag in prules:
-                m = re.fullmatch(pre, path)
+                m = pre.fullmatch(path) if hasattr(pre, "fullmatch") else re.fullmatch(pre, path)
                 if m is not None:
                     if m.re.groupindex:
                         kw = {k: (urllib.parse.unquote_to_bytes(v) if v is not None else None) for k, v in m.groupdict().items()}
                         return tag, [], kw
                     return tag, [urllib.parse.unquote_to_bytes(g) if g is not None else None for g in m.groups()], {}
         return None
+    PATS = PATS + [re.compile(r"/About$", re.I), re.compile(r"/a/(\w+)$", re.I), re.compile(r"/x y$", re.X)]
+    PATHS = PATHS + ["/about", "/ABOUT", "/A/q", "/xy", "/x y"]
     nsets = 60 if tier == "quick" else 600
     for _ in range(nsets):
         k = rng.randint(1, 4)
@@ -285,9 +287,9 @@ def standin(tier, seed):
             hn, hre = rng.choice(HOSTS)
             host_rules.append((hre, [(rng.choice(PATS), "h%d" % i) for i in range(rng.randint(1, 2))]))
         handlers = {}
-        app = W.Application([(p, handlers.setdefault(t, mk_handler(t))) for p, t in prules])
+        app = W.Application([W.url(p, handlers.setdefault(t, mk_handler(t))) for p, t in prules])
         for hre, hp in host_rules:
-            app.add_handlers(hre, [(p, handlers.setdefault(t, mk_handler(t))) for p, t in hp])
+            app.add_handlers(hre, [W.url(p, handlers.setdefault(t, mk_handler(t))) for p, t in hp])
         # Application order (documented): host-specific rule lists in the order they were added, the constructor's
         # handlers (the wildcard host) last
         ref = [(hre, hp) for hre, hp in host_rules] + [(None, prules)]
@@ -303,7 +305,7 @@ def standin(tier, seed):
                     continue
                 want = ref_route(ref, host, path)
                 want = (want[0], want[1], want[2]) if want else None
-                nontriv.add((tuple(p for p, _ in prules), host, path))
+                nontriv.add((tuple(str(p) for p, _ in prules), host, path))
                 if got != want:
                     fail("dispatched to %r, the first fully matching rule is %r" % (got, want), rules=repr(prules), host_rules=repr(host_rules), host=host, path=path)
     # ---- (b) nested routers and default handler
@@ -340,13 +342,13 @@ def standin(tier, seed):
     REV = [(r"/u/([^/]+)", [("abc",), ("a b",), ("é",), ("a%2Fb",), ("a/b",), ("x?y#z",), ("100%",), ("+",)]),
            (r"/f/(.*)", [("a/b/c",), ("",), ("a b/c?d",)]),
            (r"/n/(\d+)/(\w+)", [("12", "ab"), (7, "x")]),
-           (r"/100%/(\d+)", [("5",)]), (r"/50%/plain", [()]), (r"/a/(\w+)/50%", [("q",)]), (r"/a\.b/(\w+)", [("q",)]), (r"/p/([^/]+)/q/([^/]+)", [("x y", "z/w"), ("a", "b")])]
+           (r"/100%/(\d+)", [("5",)]), (r"/50%/plain", [()]), (r"/v/([^/]+)", [(1,), (1.0,), (True,), (0,), (0.0,), (False,), ("1",), (b"1",)]), (r"/a/(\w+)/50%", [("q",)]), (r"/a\.b/(\w+)", [("q",)]), (r"/p/([^/]+)/q/([^/]+)", [("x y", "z/w"), ("a", "b")])]
     for pat, arglists in REV:
         tagH = mk_handler("rev")
         app = W.Application([W.url(pat, tagH, name="r"), W.url(r"/.*", mk_handler("catchall"))])
         for args in arglists:
             evals += 1
-            sargs = [a if isinstance(a, str) else str(a) for a in args]
+            sargs = [a if isinstance(a, str) else (a.decode("utf8") if isinstance(a, bytes) else str(a)) for a in args]
             # representable: some text matched by the group percent-decodes to the argument (the fully quoted form is such a text if the group accepts it)
             known = None
             try:
